@@ -772,14 +772,18 @@ impl Swift {
         let output_string = self.get_codable_contents();
         let output_path = Path::new(output_folder).join("Codable.swift");
 
+        // Render exactly what would be written (`write_codable` appends a newline) so that an
+        // up-to-date file is recognised and left untouched.
+        let mut rendered = Vec::new();
+        self.write_codable(&mut rendered, &output_string)?;
+
         if let Ok(buf) = fs::read(&output_path) {
-            if buf == output_string.as_bytes() {
+            if buf == rendered {
                 return Ok(());
             }
         }
 
-        let mut w = fs::File::create(output_path)?;
-        self.write_codable(&mut w, &output_string)
+        fs::write(output_path, rendered)
     }
 
     fn get_codable_contents(&self) -> String {
